@@ -396,8 +396,123 @@ func (o *syncOracle) pool(out string) []core.Finding {
 	return fs
 }
 
+// ---- light-client state provider and the node's bootstrap ----
+
+type oblock struct {
+	bh, ah, vh, av, lrh, cp string
+}
+
+func parseBlocks(s string) map[int64]oblock {
+	m := map[int64]oblock{}
+	for _, t := range strings.Split(s, ";") {
+		p := strings.Split(t, "/")
+		if len(p) != 14 {
+			return nil
+		}
+		h, err := strconv.ParseInt(p[0], 10, 64)
+		if err != nil {
+			return nil
+		}
+		m[h] = oblock{p[1], p[2], p[3], p[4], p[5], strings.Join(p[6:], "/")}
+	}
+	return m
+}
+
+func fieldsOf(s string) map[string]string {
+	m := map[string]string{}
+	for _, t := range strings.Split(s, ",") {
+		if i := strings.IndexByte(t, ':'); i > 0 {
+			m[t[:i]] = t[i+1:]
+		}
+	}
+	return m
+}
+
+func hashedOf(cp string) string {
+	p := strings.Split(cp, "/")
+	if len(p) < 2 {
+		return cp
+	}
+	return p[0] + "/" + p[1]
+}
+
+func lcpOracle(chain map[int64]oblock, op string, m map[string]string, out string) []core.Finding {
+	var fs []core.Finding
+	h, _ := strconv.ParseInt(m["h"], 10, 64)
+	b0, ok0 := chain[h]
+	b1, ok1 := chain[h+1]
+	b2, ok2 := chain[h+2]
+	kvs := map[string]string{}
+	for _, t := range strings.Fields(out) {
+		if i := strings.IndexByte(t, '='); i > 0 {
+			kvs[t[:i]] = t[i+1:]
+		}
+	}
+	if strings.HasPrefix(out, "FORGED") {
+		return []core.Finding{fnd("stateprovider.returns-answer-not-from-the-chain", "with lying servers (%s) the provider returned %s", op, out)}
+	}
+	switch strings.Fields(op)[0] {
+	case "l.sync":
+		if !strings.HasPrefix(out, "apphash=") {
+			return nil
+		}
+		if !(ok0 && ok1 && ok2) {
+			return []core.Finding{fnd("stateprovider.answers-without-verifiable-blocks", "%s -> %s although heights h..h+2 are not all on the chain", op, out)}
+		}
+		st := fieldsOf(kvs["state"])
+		chk := func(name, got, want string) {
+			if got != want {
+				fs = append(fs, fnd("stateprovider."+name+"-not-from-verified-chain", "snapshot height %d: %s is %s, the chain has %s", h, name, got, want))
+			}
+		}
+		chk("AppHash", kvs["apphash"], b1.ah)
+		chk("state.AppHash", st["app"], b1.ah)
+		chk("state.LastBlockHeight", st["lbh"], fmt.Sprint(h))
+		chk("state.Version.App", st["ver"], b1.av)
+		chk("state.LastValidators", st["lv"], b0.vh)
+		chk("state.Validators", st["v"], b1.vh)
+		chk("state.NextValidators", st["nv"], b2.vh)
+		chk("state.LastBlockID", st["lbid"], b0.bh)
+		chk("state.LastResultsHash", st["lrh"], b1.lrh)
+		chk("state.LastHeightValidatorsChanged", st["lhvc"], fmt.Sprint(h+2))
+		chk("state.LastHeightConsensusParamsChanged", st["lhcpc"], fmt.Sprint(h+1))
+		chk("commit", kvs["commit"], fmt.Sprintf("%d:%s", h, b0.bh))
+		if st["cp"] != b1.cp {
+			if hashedOf(st["cp"]) == hashedOf(b1.cp) {
+				fs = append(fs, fnd("stateprovider.State.consensus-params-unhashed-fields-not-verified", "snapshot height %d: the returned state's consensus params are %s, the chain's are %s: only Block.MaxBytes/MaxGas are bound by the header's ConsensusHash, the rest is whatever the RPC server says", h, st["cp"], b1.cp))
+			} else {
+				fs = append(fs, fnd("stateprovider.State.consensus-params-hash-not-checked", "snapshot height %d: params %s returned, the chain's are %s", h, st["cp"], b1.cp))
+			}
+		}
+	case "l.boot":
+		if !strings.HasPrefix(out, "state=") || strings.HasPrefix(out, "state=empty") {
+			return nil // nothing written that a restart would trust: the node state-syncs again
+		}
+		start := kvs["start"]
+		if start != "ok" {
+			fs = append(fs, fnd("node.startStateSync.stores-leave-node-unstartable", "after the writes of startStateSync (crash=%s, order=%s) the state store holds the restored state but consensus cannot start: %s", m["crash"], m["order"], start))
+			return fs
+		}
+		if ok0 && ok1 && ok2 {
+			for k, want := range []string{b0.vh, b1.vh, b2.vh} {
+				if got := kvs[fmt.Sprintf("vals%d", k)]; got != want {
+					fs = append(fs, fnd("node.bootstrap.validators-lookup-differs-from-chain", "LoadValidators(h+%d) = %s, chain %s", k, got, want))
+				}
+			}
+			if kvs["seen"] != fmt.Sprintf("%d:%s", h, b0.bh) {
+				fs = append(fs, fnd("node.bootstrap.seen-commit-differs-from-chain", "seen commit %s", kvs["seen"]))
+			}
+			if kvs["params1"] == "none" {
+				fs = append(fs, fnd("node.bootstrap.consensus-params-lookup-fails", "LoadConsensusParams(h+1) fails after Bootstrap"))
+			}
+		}
+	}
+	return fs
+}
+
 func oracle(c core.Case, out []string) []core.Finding {
 	var fs []core.Finding
+	var lchainO map[int64]oblock
 	so := &syncOracle{env: map[uint64]envRow{}, blKey: map[string]bool{}, blFormat: map[uint32]bool{}, blPeer: map[string]bool{},
 		firstAdv: map[string]string{}, flagged: map[string]bool{}}
 	// queue / pool streams
@@ -437,6 +552,15 @@ func oracle(c core.Case, out []string) []core.Finding {
 		}
 		m := kv(op)
 		switch f[0] {
+		case "l.chain":
+			lchainO = nil
+			if out[i] == "ok" {
+				lchainO = parseBlocks(m["blocks"])
+			}
+		case "l.sync", "l.boot":
+			if lchainO != nil {
+				fs = append(fs, lcpOracle(lchainO, op, m, out[i])...)
+			}
 		case "q.new":
 			qt = nil
 			if out[i] == "ok" {
